@@ -1,4 +1,5 @@
 mod enc;
+mod enumgen;
 mod extcases;
 mod gen;
 mod intern;
